@@ -16,6 +16,8 @@
 #include <tulz/observer/routing/ConcurrentSubjectRouter.h>
 #include <tulz/observer/routing/RoutingKeyBuilder.h>
 
+#include "../painted.h"
+
 using verif::ev;
 
 static tulz::RoutingKey mkKey(const std::string &s) {
@@ -106,7 +108,9 @@ static void runOne(const std::string &cfgIn) {
     if (g_crowd) cfg.erase(0, 1);
     auto parts = split(cfg, '|');
     g_holdTarget = (int) split(parts.at(1), ',').size() - 1;
-    tulz::ConcurrentSubjectRouter router, aux;
+    // both routers live in painted storage (harness/painted.h)
+    verif::Painted<tulz::ConcurrentSubjectRouter> routerBox(verif::paintFor(cfg)), auxBox(verif::paintFor(cfg));
+    tulz::ConcurrentSubjectRouter &router = *routerBox, &aux = *auxBox;
     {
         // stable ids: the Resource of the router under test is m0 / c1, the auxiliary router's m2 / c3 (the replay looks at m0 / c1 only)
         auto &S = verif::Sched::I();
